@@ -3,6 +3,7 @@
  * magnitude <= 8) every VERIFY_BITS / VERIFY_BITS_128 bound holds - no 128-bit accumulator overflows - and the
  * output limbs have magnitude 1.  The 64x64 multiplier is the uninterpreted function of assumed_C05.h.
  * NOT proved here: r == a b (mod p)  (assumed residue). */
+#define C05_GROUP_CONTRACTS 1   /* magnitude contracts of secp256k1_fe_mul / fe_sqr: ENFORCED here, used (replaced) by the group units */
 #include "assumed_C05.h"
 #include "src/secp256k1.c"
 #include "post.h"
@@ -40,6 +41,23 @@ void h_fe_sqr_inner(void) {
     if (alias) REACH("fe_sqr_inner r aliases sq");
     if (!alias && sq[0] == (((limb_t)1) << (SA_FE_LIMB_BITS + 4)) - 1 && sq[NLIMB - 1] == (((limb_t)1) << (SA_FE_TOP_BITS + 4)) - 1) REACH("fe_sqr_inner maximal limbs");
 }
+#if defined(VERIFY)
+/* The magnitude contracts of the VERIFY wrappers secp256k1_fe_mul / secp256k1_fe_sqr (assumed_C05.h) that the group
+ * units rely on, enforced against the real wrapper + real inner function (UF multiplier).  DFCC assumes the requires
+ * clauses and checks ensures + assigns. */
+void h_fe_mul_contract(void) {
+    INPUT(secp256k1_fe, fa); INPUT(secp256k1_fe, fb); INPUT(_Bool, alias);
+    secp256k1_fe rr;
+    secp256k1_fe_mul(alias ? &fa : &rr, &fa, &fb);
+    if (alias) REACH("fe_mul contract, r aliases a"); else REACH("fe_mul contract, distinct r");
+}
+void h_fe_sqr_contract(void) {
+    INPUT(secp256k1_fe, fa); INPUT(_Bool, alias);
+    secp256k1_fe rr;
+    secp256k1_fe_sqr(alias ? &fa : &rr, &fa);
+    if (alias) REACH("fe_sqr contract, r aliases a"); else REACH("fe_sqr contract, distinct r");
+}
+#endif
 #if !defined(USE_FORCE_WIDEMUL_INT64)
 /* (B) of assumed_C05.h holds for the REAL multiplier (real bodies of u128_mul / u128_accum_mul, nothing replaced) */
 void h_umul_axioms(void) {
